@@ -6,6 +6,7 @@ pub struct QtyMap { pub entries: Vec<(AssetName, Int)> }
 impl QtyMap {
     #[verifier::external_body] pub fn iter(&self) -> (r: core::slice::Iter<'_, (AssetName, Int)>)
         ensures r.remaining() == refs(self.entries@), r.obeys_prophetic_iter_laws(), r.decrease() is Some { unimplemented!() }
+    #[verifier::external_body] pub fn new_() -> (r: QtyMap) ensures r.entries@.len() == 0 { unimplemented!() }
     /// BTreeMap::insert (what it stores is not part of the claim on MintAssets::insert: only which values are accepted)
     #[verifier::external_body] pub fn insert(&mut self, k: AssetName, v: Int) -> (r: Option<Int>) { unimplemented!() }
 }
